@@ -255,6 +255,8 @@ pub(crate) enum ExprErrorKind {
     DivisionByZero,
     #[error("random({0}) has an empty range")]
     EmptyRandomRange(i64),
+    #[error("Function {0} is not implemented")]
+    FunctionNotImplemented(&'static str),
 }
 
 /// Could not construct static iterator
